@@ -81,6 +81,16 @@ CLAIMED = {
  "C30": ("Network.tla packet-routing transition system model-checked for confluence; deterministic schedule per case prints terminal counters, replayed into per_loop_transfer_cost, exact rational comparison",
          "TLC routes every value as a packet hop by hop on a 1-D mesh line or through a central switch with per-link counters; all interleavings are explored for fanout <= 4-5 and proven confluent; for every fanout <= 32, stride <= 8, both topologies, multicast and unicast the terminal hop count and maximum link counter are replayed into get_topology_model(t).per_loop_transfer_cost with a non-distributed source; total_cost and max_traffic must be exactly equal.",
          "Integer volumes; max_hops not compared. Known finding: fanout-1 multicast reports max_traffic = volume.", "5/C30"),
+
+ "C09": ("TLA+ expression semantics (SignVerdict: Eval over guarded rationals, Signs, Admissible, PreOK) evaluated by TLC; spec->code replay of generated formulas into geq_leq_zero, code->spec validation (Trace_SignVerdict) of recorded derivative verdicts and of calls harvested from real mapper runs",
+         "TLC generates formula ASTs (exhaustive one-symbol grammar; seeded random grammar over 1-3 positive integer symbols with sums, products, quotients, ceilings, Min/Max) with small boxes and prints which sign statements hold at every box point and whether the terms_do_not_cross_zero precondition holds; geq_leq_zero's verdicts are compared with that. Every diff_geq_leq_zero verdict on those formulas and every geq_leq_zero/diff_geq_leq_zero call made by the real mapper on 3-6 small specs is recorded (AST of the formula judged, box, flag, verdict) and TLC evaluates SignVerdict!Admissible with exact rational evaluation at every integer point.",
+         "Sampled beyond the 600-1200-formula small grammar. Derivatives containing unevaluated Derivative(ceiling) are not decisive. Three open known findings (sympy assumptions, Heaviside partition, dropped ceilings).", "5/C09"),
+ "C12": ("TLA+ definitions (ParetoTable: ExpectVec, Covers over Pareto!Leq/Lt/LeqScaled) evaluated by TLC; spec->code replay for zero tolerance, code->spec validation (Trace_ParetoTable) for tolerances and constant-column invariance",
+         "TLC enumerates every 2-3-row (thorough also 4-row) pmapping table over small value alphabets for schemas of real column names x a grid of 12 tolerance triples, and draws larger tables (<= 160 rows, 13 schemas). For zero tolerance the expected keep/drop vector is the TLA+ definition, compared with makepareto (float64) and PmappingDataframe.make_pareto (float32), with and without added constant columns. For every tolerance the kept rows returned by the code are recorded and TLC evaluates Covers (k <= (1+t)d on objectives, reservation slack, equal fused-loop columns).",
+         "Exhaustive only for <= 4-row tables over 2-6 values; rows duplicating a kept row on all compared columns are not decisive; drop_valid_reservations=False only.", "5/C12"),
+ "C14": ("Staged join vs one exact join (all accelerations off) on the same real pmappings; front equality decided by TLC (Fronts.tla); staged control structure model-checked (JoinStrategy.tla) and the recorded internal join sequence validated (Trace_JoinStrategy.tla)",
+         "On 2- and 3-Einsum matmul chains the pmappings are generated once and joined twice: by main.join_pmappings (dirty thresholds, optimality filter, lookahead, untracked memories, reservation combining) and by one exact join with all of these off; the two fronts must be equal as sets of objective vectors (both directions). Role A: TLC proves that every Return state of the abstract staged strategy carries the exhaustive optimum for additive non-negative objectives and finds counterexamples without the monotonicity premise or without the oversubscription retry. The recorded prune/join sequence of every staged run must be a behaviour of that control structure.",
+         "The exact join is obtained by calling the internal join with lookahead disabled through a source-level switch (the flag is hard-coded inside the function), get_memories_to_track neutralised and RESOURCE_USAGE forced so that all reservations are kept. Retry path exercised only when a micro-spec oversubscribes (reported in the evidence).", "5/C14"),
 }
 NOT_YET = "check not built yet in this round; see DESIGN.md section 5 for the planned TLA+ module"
 
@@ -106,7 +116,7 @@ m = {
   "guard": "ACCELFORGE_VERIF",
   "enable": "export ACCELFORGE_VERIF=1 (set by ./check); accelforge is imported from /repo's working tree (develop install), nothing to build",
   "baseline_off_cmd": "cd /repo && env -u ACCELFORGE_VERIF /venv/bin/python -m pytest -ra -q -p no:cacheprovider --timeout=900 --continue-on-collection-errors",
-  "source_commits": [],
+  "source_commits": ["4950931"],
   "add_only": True,
  },
  "engines": [{"name": "tlc", "path": "/opt/veriftools/tla/tla2tools.jar",
